@@ -434,13 +434,16 @@ theorem C12_chars_unexpected_delim (o : Opts) (cs : List Chunk) (preB postB : Li
     (ty : TokType) (tx : Str) (seen2 : List Str) (H : ItemHost o cs preB postB bc pre post [(ty, tx)])
     (hty : ty = .clist ∨ ty = .ctable) (hnoloop : lastIsLoop pre = false) (hpost : wfItems o post seen2 = true)
     (hseen2 : ∀ k ∈ normNames o (denoteItems o.dia o.normKey pre []), k ∈ seen2) :
-    OneReport o cs CIF_UNEXPECTED_DELIM (preB ++ [plainBlock bc (pre ++ post)] ++ postB) :=
-  items_class_doc H _ CIF_UNEXPECTED_DELIM 0 (by simp)
-    (by simpa using allPacked_run o pre post [] seen2 H.wfRun hpost (fun _ h => h))
-    (fun hv rest1 s1 w1 f hw1 hf hfol hF1 =>
-      have hterm := blockFollow_term hfol
-      C12_unexpected_delim o hv pre post ty tx [] seen2 rest1 s1 f w1 [] [] true hw1 hty H.wfRun (nil_seen o) hnoloop hpost hseen2
-        (by omega) (fun _ => hterm) hF1)
+    OneReportAt o cs CIF_UNEXPECTED_DELIM
+      (preB ++ [plainBlock bc (pre ++ post)] ++ postB)
+      ((blocksToks preB).length + 1 + ((itemsToks pre).length + 0)) := by
+  refine items_class_doc_at H _ CIF_UNEXPECTED_DELIM 0 _ (by simp) (by omega)
+    (by simpa using allPacked_run o pre post [] seen2 H.wfRun hpost (fun _ h => h)) ?_
+  intro hv rest1 s1 w1 f hw1 hf hfol hF1
+  have hterm := blockFollow_term hfol
+  obtain ⟨s2, r, h1, h2, h3, h4, _⟩ := C12_unexpected_delim_at o hv pre post ty tx [] seen2 rest1 s1 f w1 [] [] true hw1 hty H.wfRun
+    (nil_seen o) hnoloop hpost hseen2 (by omega) (fun _ => hterm) hF1
+  exact ⟨s2, r, h1, h2, h3, h4⟩
 
 /-- **C12_chars_unexpected_term** — `save_` in a data block while no save frame is open.  One report, CIF_UNEXPECTED_TERM; the
     content is that of the document without it. -/
@@ -448,13 +451,16 @@ theorem C12_chars_unexpected_term (o : Opts) (cs : List Chunk) (preB postB : Lis
     (tx : Str) (seen2 : List Str) (H : ItemHost o cs preB postB bc pre post [(.frameTerm, tx)])
     (hpost : wfItems o post seen2 = true)
     (hseen2 : ∀ k ∈ normNames o (denoteItems o.dia o.normKey pre []), k ∈ seen2) :
-    OneReport o cs CIF_UNEXPECTED_TERM (preB ++ [plainBlock bc (pre ++ post)] ++ postB) :=
-  items_class_doc H _ CIF_UNEXPECTED_TERM 0 (by simp)
-    (by simpa using allPacked_run o pre post [] seen2 H.wfRun hpost (fun _ h => h))
-    (fun hv rest1 s1 w1 f hw1 hf hfol hF1 =>
-      have hterm := blockFollow_term hfol
-      C12_unexpected_term o hv pre post tx [] seen2 rest1 s1 f w1 [] [] hw1 H.wfRun (nil_seen o) hpost hseen2
-        (by omega) (fun _ => hterm) hF1)
+    OneReportAt o cs CIF_UNEXPECTED_TERM
+      (preB ++ [plainBlock bc (pre ++ post)] ++ postB)
+      ((blocksToks preB).length + 1 + ((itemsToks pre).length + 0)) := by
+  refine items_class_doc_at H _ CIF_UNEXPECTED_TERM 0 _ (by simp) (by omega)
+    (by simpa using allPacked_run o pre post [] seen2 H.wfRun hpost (fun _ h => h)) ?_
+  intro hv rest1 s1 w1 f hw1 hf hfol hF1
+  have hterm := blockFollow_term hfol
+  obtain ⟨s2, r, h1, h2, h3, h4, _⟩ := C12_unexpected_term_at o hv pre post tx [] seen2 rest1 s1 f w1 [] [] hw1 H.wfRun
+    (nil_seen o) hpost hseen2 (by omega) (fun _ => hterm) hF1
+  exact ⟨s2, r, h1, h2, h3, h4⟩
 
 /-- **C12_chars_null_loop** — `loop_` that is not followed by a data name: the next token is `loop_`, a block header, or the end
     of the input.  One report, CIF_NULL_LOOP; the content is that of the document without it. -/
@@ -463,23 +469,27 @@ theorem C12_chars_null_loop (o : Opts) (cs : List Chunk) (preB postB : List Bloc
     (hpost : wfItems o post seen2 = true)
     (hseen2 : ∀ k ∈ normNames o (denoteItems o.dia o.normKey pre []), k ∈ seen2)
     (hnext : ∀ i r, post = i :: r → ∃ ms ps, i = .loop ms ps) :
-    OneReport o cs CIF_NULL_LOOP (preB ++ [plainBlock bc (pre ++ post)] ++ postB) :=
-  items_class_doc H _ CIF_NULL_LOOP 1 (by simp)
-    (by simpa using allPacked_run o pre post [] seen2 H.wfRun hpost (fun _ h => h))
-    (fun hv rest1 s1 w1 f hw1 hf hfol hF1 =>
-      have hterm := blockFollow_term hfol
-      C12_null_loop o hv pre post [] seen2 rest1 s1 f w1 [] [] true hw1 H.wfRun (nil_seen o) hpost hseen2 (by omega)
-        (by
-          cases post with
-          | nil =>
-            obtain ⟨ty, tx, ts, rfl, ht⟩ := hfol
-            refine ⟨ty, tx, ts, rfl, ?_⟩
-            rcases ht with h | h <;> subst h <;> decide
-          | cons i r0 =>
-            obtain ⟨ms, ps, rfl⟩ := hnext i r0 rfl
-            exact ⟨.loopKw, [], ms.map (fun n => (TokType.name, n)) ++ (packetsToks ps ++ (itemsToks r0 ++ rest1)),
-              by simp [itemsToks, itemToks], by decide⟩)
-        (fun _ => hterm) hF1)
+    OneReportAt o cs CIF_NULL_LOOP
+      (preB ++ [plainBlock bc (pre ++ post)] ++ postB)
+      ((blocksToks preB).length + 1 + ((itemsToks pre).length + 1)) := by
+  refine items_class_doc_at H _ CIF_NULL_LOOP 1 _ (by simp) (by simp)
+    (by simpa using allPacked_run o pre post [] seen2 H.wfRun hpost (fun _ h => h)) ?_
+  intro hv rest1 s1 w1 f hw1 hf hfol hF1
+  have hterm := blockFollow_term hfol
+  obtain ⟨s2, r, h1, h2, h3, h4, _⟩ := C12_null_loop_at o hv pre post [] seen2 rest1 s1 f w1 [] [] true hw1 H.wfRun (nil_seen o)
+    hpost hseen2 (by omega)
+    (by
+      cases post with
+      | nil =>
+        obtain ⟨ty, tx, ts, rfl, ht⟩ := hfol
+        refine ⟨ty, tx, ts, rfl, ?_⟩
+        rcases ht with h | h <;> subst h <;> decide
+      | cons i r0 =>
+        obtain ⟨ms, ps, rfl⟩ := hnext i r0 rfl
+        exact ⟨.loopKw, [], ms.map (fun n => (TokType.name, n)) ++ (packetsToks ps ++ (itemsToks r0 ++ rest1)),
+          by simp [itemsToks, itemToks], by decide⟩)
+    (fun _ => hterm) hF1
+  exact ⟨s2, r, h1, h2, h3, h4⟩
 
 /-- **C12_chars_invalid_itemname** — a data name that is not a valid item name, with its value.  One report,
     CIF_INVALID_ITEMNAME; the content is that of the document without the item. -/
@@ -487,13 +497,17 @@ theorem C12_chars_invalid_itemname (o : Opts) (cs : List Chunk) (preB postB : Li
     (n : Str) (v : Val) (seen2 : List Str) (H : ItemHost o cs preB postB bc pre post ((.name, n) :: valToks v))
     (hn0 : noNul n = true) (hinv : isValidName true n = false) (hwv : wfVal o v = true) (hpost : wfItems o post seen2 = true)
     (hseen2 : ∀ k ∈ normNames o (denoteItems o.dia o.normKey pre []), k ∈ seen2) :
-    OneReport o cs CIF_INVALID_ITEMNAME (preB ++ [plainBlock bc (pre ++ post)] ++ postB) :=
-  items_class_doc H _ CIF_INVALID_ITEMNAME (szVal v) (by rw [Lemmas.WriterChunks.szVal_toks]; simp only [List.length_cons]; omega)
-    (by simpa using allPacked_run o pre post [] seen2 H.wfRun hpost (fun _ h => h))
-    (fun hv rest1 s1 w1 f hw1 hf hfol hF1 =>
-      have hterm := blockFollow_term hfol
-      C12_invalid_itemname o hv pre post n v [] seen2 rest1 s1 f w1 [] [] true hw1 H.wfRun (nil_seen o) hn0 hinv hwv hpost hseen2
-        (by omega) (fun _ => hterm) hF1)
+    OneReportAt o cs CIF_INVALID_ITEMNAME
+      (preB ++ [plainBlock bc (pre ++ post)] ++ postB)
+      ((blocksToks preB).length + 1 + ((itemsToks pre).length + 1)) := by
+  refine items_class_doc_at H _ CIF_INVALID_ITEMNAME (szVal v) _
+    (by rw [Lemmas.WriterChunks.szVal_toks]; simp only [List.length_cons]; omega) (by simp only [List.length_cons]; omega)
+    (by simpa using allPacked_run o pre post [] seen2 H.wfRun hpost (fun _ h => h)) ?_
+  intro hv rest1 s1 w1 f hw1 hf hfol hF1
+  have hterm := blockFollow_term hfol
+  obtain ⟨s2, r, h1, h2, h3, h4, _⟩ := C12_invalid_itemname_at o hv pre post n v [] seen2 rest1 s1 f w1 [] [] true hw1 H.wfRun
+    (nil_seen o) hn0 hinv hwv hpost hseen2 (by omega) (fun _ => hterm) hF1
+  exact ⟨s2, r, h1, h2, h3, h4⟩
 
 /-- **C12_chars_missing_delim_list** — a list (elements of any kind and depth) whose closing bracket is missing, as the value of an
     item.  One report, CIF_MISSING_DELIM; the content is that of the document with the bracket in front of the token that cannot
@@ -504,13 +518,17 @@ theorem C12_chars_missing_delim_list (o : Opts) (cs : List Chunk) (preB postB : 
     (hname : wfName n = true) (hfresh : o.norm n ∉ normNames o (denoteItems o.dia o.normKey pre []))
     (hwv : wfVals o vs = true) (hpost : wfItems o post seen2 = true)
     (hseen2 : ∀ k ∈ normNames o (denoteItems o.dia o.normKey (pre ++ [.item n (.lst vs)]) []), k ∈ seen2) :
-    OneReport o cs CIF_MISSING_DELIM (preB ++ [plainBlock bc (pre ++ [.item n (.lst vs)] ++ post)] ++ postB) :=
-  items_class_doc H _ CIF_MISSING_DELIM (szVals vs + 2) (by rw [Lemmas.WriterChunks.szVals_toks]; simp only [List.length_cons]; omega)
-    (allPacked_run o pre post _ seen2 H.wfRun hpost (allPacked_item o n _))
-    (fun hv rest1 s1 w1 f hw1 hf hfol hF1 =>
-      have hterm := blockFollow_term hfol
-      C12_missing_delim_list o hv pre post n btx vs [] seen2 rest1 s1 f w1 [] [] true hw1 H.wfRun (nil_seen o) hname hfresh hwv hpost
-        hseen2 (by omega) (Or.inr hterm) (fun _ => hterm) hF1)
+    OneReportAt o cs CIF_MISSING_DELIM
+      (preB ++ [plainBlock bc (pre ++ [.item n (.lst vs)] ++ post)] ++ postB)
+      ((blocksToks preB).length + 1 + ((itemsToks pre).length + (1 + (1 + (valsToks vs).length)))) := by
+  refine items_class_doc_at H _ CIF_MISSING_DELIM (szVals vs + 2) _
+    (by rw [Lemmas.WriterChunks.szVals_toks]; simp only [List.length_cons]; omega) (by simp only [List.length_cons, List.length_append, List.length_nil]; omega)
+    (allPacked_run o pre post _ seen2 H.wfRun hpost (allPacked_item o n _)) ?_
+  intro hv rest1 s1 w1 f hw1 hf hfol hF1
+  have hterm := blockFollow_term hfol
+  obtain ⟨s2, r, h1, h2, h3, h4, _⟩ := C12_missing_delim_list_at o hv pre post n btx vs [] seen2 rest1 s1 f w1 [] [] true hw1 H.wfRun
+    (nil_seen o) hname hfresh hwv hpost hseen2 (by omega) (Or.inr hterm) (fun _ => hterm) hF1
+  exact ⟨s2, r, h1, h2, h3, h4⟩
 
 /-- **C12_chars_missing_delim_table** — a table whose closing brace is missing, as the value of an item.  One report,
     CIF_MISSING_DELIM; the content is that of the document with the brace. -/
@@ -520,15 +538,17 @@ theorem C12_chars_missing_delim_table (o : Opts) (cs : List Chunk) (preB postB :
     (hname : wfName n = true) (hfresh : o.norm n ∉ normNames o (denoteItems o.dia o.normKey pre []))
     (hwv : wfEntries o es = true) (hpost : wfItems o post seen2 = true)
     (hseen2 : ∀ k ∈ normNames o (denoteItems o.dia o.normKey (pre ++ [.item n (.tbl es)]) []), k ∈ seen2) :
-    OneReport o cs CIF_MISSING_DELIM (preB ++ [plainBlock bc (pre ++ [.item n (.tbl es)] ++ post)] ++ postB) :=
-  items_class_doc H _ CIF_MISSING_DELIM (szEntries es + 2)
-    (by rw [Lemmas.WriterChunks.szEntries_toks]; simp only [List.length_cons]; omega)
-    (allPacked_run o pre post _ seen2 H.wfRun hpost (allPacked_item o n _))
-    (fun hv rest1 s1 w1 f hw1 hf hfol hF1 =>
-      have hterm := blockFollow_term hfol
-      C12_missing_delim_table o hv pre post n btx es [] seen2 rest1 s1 f w1 [] [] true hw1 H.wfRun (nil_seen o) hname hfresh hwv hpost
-        hseen2 (by omega) (Or.inr hterm) (fun _ => hterm) hF1)
-
+    OneReportAt o cs CIF_MISSING_DELIM
+      (preB ++ [plainBlock bc (pre ++ [.item n (.tbl es)] ++ post)] ++ postB)
+      ((blocksToks preB).length + 1 + ((itemsToks pre).length + (1 + (1 + (entriesToks es).length)))) := by
+  refine items_class_doc_at H _ CIF_MISSING_DELIM (szEntries es + 2) _
+    (by rw [Lemmas.WriterChunks.szEntries_toks]; simp only [List.length_cons]; omega) (by simp only [List.length_cons, List.length_append, List.length_nil]; omega)
+    (allPacked_run o pre post _ seen2 H.wfRun hpost (allPacked_item o n _)) ?_
+  intro hv rest1 s1 w1 f hw1 hf hfol hF1
+  have hterm := blockFollow_term hfol
+  obtain ⟨s2, r, h1, h2, h3, h4, _⟩ := C12_missing_delim_table_at o hv pre post n btx es [] seen2 rest1 s1 f w1 [] [] true hw1 H.wfRun
+    (nil_seen o) hname hfresh hwv hpost hseen2 (by omega) (Or.inr hterm) (fun _ => hterm) hF1
+  exact ⟨s2, r, h1, h2, h3, h4⟩
 
 /-! ### the table-key classes whose defect is a whole token (Props/C12Lex) — any entries before and behind inside the table -/
 
@@ -542,19 +562,21 @@ theorem C12_chars_table_missing_value (o : Opts) (cs : List Chunk) (preB postB :
     (hepre : wfEntries o epre = true) (hepost : wfEntries o epost = true) (hk0 : noNul k = true) (hkd : hasDisallowed k = false)
     (hpost : wfItems o post seen2 = true)
     (hseen2 : ∀ x ∈ normNames o (denoteItems o.dia o.normKey (pre ++ [.item n (.tbl (epre ++ [(k, kp, Val.unk)] ++ epost))]) []), x ∈ seen2) :
-    OneReport o cs CIF_MISSING_VALUE
-      (preB ++ [plainBlock bc (pre ++ [.item n (.tbl (epre ++ [(k, kp, Val.unk)] ++ epost))] ++ post)] ++ postB) := by
+    OneReportAt o cs CIF_MISSING_VALUE
+      (preB ++ [plainBlock bc (pre ++ [.item n (.tbl (epre ++ [(k, kp, Val.unk)] ++ epost))] ++ post)] ++ postB)
+      ((blocksToks preB).length + 1 + ((itemsToks pre).length + (1 + (1 + ((entriesToks epre).length + 1))))) := by
   have hl := szEntries_len epre
-  refine items_class_doc H _ CIF_MISSING_VALUE (szEntries epre + szEntries epost + 0 + 2 + 2 * epre.length + 3)
+  refine items_class_doc_at H _ CIF_MISSING_VALUE (szEntries epre + szEntries epost + 0 + 2 + 2 * epre.length + 3) _
     (by
       rw [Lemmas.WriterChunks.szEntries_toks epre, Lemmas.WriterChunks.szEntries_toks epost] at *
       simp only [List.length_cons, List.length_append, List.length_nil]; omega)
+    (by simp only [List.length_cons, List.length_append, List.length_nil]; omega)
     (allPacked_run o pre post _ seen2 H.wfRun hpost (allPacked_item o n _)) ?_
   intro hv rest1 s1 w1 f hw1 hf hfol hF1
   have hterm := blockFollow_term hfol
-  have := C12_table_missing_value o hv pre post n btx epre epost k kp [] seen2 rest1 s1 f w1 [] [] true hw1 H.wfRun (nil_seen o) hname hfresh
-        hepre hepost hk0 hkd hpost hseen2 (by omega) (fun _ => hterm) hF1
-  simpa using this
+  obtain ⟨s2, r, h1, h2, h3, h4, _⟩ := C12_table_missing_value_at o hv pre post n btx epre epost k kp [] seen2 rest1 s1 f w1 [] [] true
+    hw1 H.wfRun (nil_seen o) hname hfresh hepre hepost hk0 hkd hpost hseen2 (by omega) (fun _ => hterm) hF1
+  exact ⟨s2, r, by simpa using h1, h2, h3, h4⟩
 
 /-- **C12_chars_missing_key** — a delimited string, text field, list or table without key inside a table.  One report,
     CIF_MISSING_KEY; the content is that of the document without that value. -/
@@ -566,18 +588,21 @@ theorem C12_chars_missing_key (o : Opts) (cs : List Chunk) (preB postB : List Bl
     (hepre : wfEntries o epre = true) (hepost : wfEntries o epost = true) (hnb : notBare v = true) (hwv : wfVal o v = true)
     (hpost : wfItems o post seen2 = true)
     (hseen2 : ∀ x ∈ normNames o (denoteItems o.dia o.normKey (pre ++ [.item n (.tbl (epre ++ epost))]) []), x ∈ seen2) :
-    OneReport o cs CIF_MISSING_KEY (preB ++ [plainBlock bc (pre ++ [.item n (.tbl (epre ++ epost))] ++ post)] ++ postB) := by
+    OneReportAt o cs CIF_MISSING_KEY
+      (preB ++ [plainBlock bc (pre ++ [.item n (.tbl (epre ++ epost))] ++ post)] ++ postB)
+      ((blocksToks preB).length + 1 + ((itemsToks pre).length + (1 + (1 + ((entriesToks epre).length + 0))))) := by
   have hl := szEntries_len epre
-  refine items_class_doc H _ CIF_MISSING_KEY (szEntries epre + szEntries epost + szVal v + 1 + 2 * epre.length + 3)
+  refine items_class_doc_at H _ CIF_MISSING_KEY (szEntries epre + szEntries epost + szVal v + 1 + 2 * epre.length + 3) _
     (by
       rw [Lemmas.WriterChunks.szEntries_toks epre, Lemmas.WriterChunks.szEntries_toks epost, Lemmas.WriterChunks.szVal_toks] at *
       simp only [List.length_cons, List.length_append, List.length_nil]; omega)
+    (by simp only [List.length_cons, List.length_append, List.length_nil]; omega)
     (allPacked_run o pre post _ seen2 H.wfRun hpost (allPacked_item o n _)) ?_
   intro hv rest1 s1 w1 f hw1 hf hfol hF1
   have hterm := blockFollow_term hfol
-  have := C12_missing_key o hv pre post n btx epre epost v [] seen2 rest1 s1 f w1 [] [] true hw1 H.wfRun (nil_seen o) hname
-        hfresh hepre hepost hnb hwv hpost (by simpa using hseen2) (by omega) (fun _ => hterm) hF1
-  simpa using this
+  obtain ⟨s2, r, h1, h2, h3, h4, _⟩ := C12_missing_key_at o hv pre post n btx epre epost v [] seen2 rest1 s1 f w1 [] [] true hw1 H.wfRun
+    (nil_seen o) hname hfresh hepre hepost hnb hwv hpost (by simpa using hseen2) (by omega) (fun _ => hterm) hF1
+  exact ⟨s2, r, by simpa using h1, h2, h3, h4⟩
 
 /-- **C12_chars_missing_key_word** — a whitespace-delimited word without colon inside a table.  One report, CIF_MISSING_KEY; the
     content is that of the document without the word. -/
@@ -589,18 +614,21 @@ theorem C12_chars_missing_key_word (o : Opts) (cs : List Chunk) (preB postB : Li
     (hepre : wfEntries o epre = true) (hepost : wfEntries o epost = true) (hhead : tx.head? ≠ some colon) (hcolon : colonIdx tx = none)
     (hpost : wfItems o post seen2 = true)
     (hseen2 : ∀ x ∈ normNames o (denoteItems o.dia o.normKey (pre ++ [.item n (.tbl (epre ++ epost))]) []), x ∈ seen2) :
-    OneReport o cs CIF_MISSING_KEY (preB ++ [plainBlock bc (pre ++ [.item n (.tbl (epre ++ epost))] ++ post)] ++ postB) := by
+    OneReportAt o cs CIF_MISSING_KEY
+      (preB ++ [plainBlock bc (pre ++ [.item n (.tbl (epre ++ epost))] ++ post)] ++ postB)
+      ((blocksToks preB).length + 1 + ((itemsToks pre).length + (1 + (1 + ((entriesToks epre).length + 0))))) := by
   have hl := szEntries_len epre
-  refine items_class_doc H _ CIF_MISSING_KEY (szEntries epre + szEntries epost + 0 + 1 + 2 * epre.length + 3)
+  refine items_class_doc_at H _ CIF_MISSING_KEY (szEntries epre + szEntries epost + 0 + 1 + 2 * epre.length + 3) _
     (by
       rw [Lemmas.WriterChunks.szEntries_toks epre, Lemmas.WriterChunks.szEntries_toks epost] at *
       simp only [List.length_cons, List.length_append, List.length_nil]; omega)
+    (by simp only [List.length_cons, List.length_append, List.length_nil]; omega)
     (allPacked_run o pre post _ seen2 H.wfRun hpost (allPacked_item o n _)) ?_
   intro hv rest1 s1 w1 f hw1 hf hfol hF1
   have hterm := blockFollow_term hfol
-  have := C12_missing_key_word o hv pre post n btx epre epost tx [] seen2 rest1 s1 f w1 [] [] true hw1 H.wfRun (nil_seen o)
-        hname hfresh hepre hepost hhead hcolon hpost (by simpa using hseen2) (by omega) (fun _ => hterm) hF1
-  simpa using this
+  obtain ⟨s2, r, h1, h2, h3, h4, _⟩ := C12_missing_key_word_at o hv pre post n btx epre epost tx [] seen2 rest1 s1 f w1 [] [] true hw1
+    H.wfRun (nil_seen o) hname hfresh hepre hepost hhead hcolon hpost (by simpa using hseen2) (by omega) (fun _ => hterm) hF1
+  exact ⟨s2, r, by simpa using h1, h2, h3, h4⟩
 
 /-- **C12_chars_null_key** — a colon standing alone in key position, with the value behind it.  One report, CIF_NULL_KEY; the
     content is that of the document without that entry. -/
@@ -612,19 +640,21 @@ theorem C12_chars_null_key (o : Opts) (cs : List Chunk) (preB postB : List Block
     (hepre : wfEntries o epre = true) (hepost : wfEntries o epost = true) (hwv : wfVal o v = true)
     (hpost : wfItems o post seen2 = true)
     (hseen2 : ∀ x ∈ normNames o (denoteItems o.dia o.normKey (pre ++ [.item n (.tbl (epre ++ epost))]) []), x ∈ seen2) :
-    OneReport o cs CIF_NULL_KEY (preB ++ [plainBlock bc (pre ++ [.item n (.tbl (epre ++ epost))] ++ post)] ++ postB) := by
+    OneReportAt o cs CIF_NULL_KEY
+      (preB ++ [plainBlock bc (pre ++ [.item n (.tbl (epre ++ epost))] ++ post)] ++ postB)
+      ((blocksToks preB).length + 1 + ((itemsToks pre).length + (1 + (1 + ((entriesToks epre).length + 0))))) := by
   have hl := szEntries_len epre
-  refine items_class_doc H _ CIF_NULL_KEY (szEntries epre + szEntries epost + szVal v + 2 + 2 * epre.length + 3)
+  refine items_class_doc_at H _ CIF_NULL_KEY (szEntries epre + szEntries epost + szVal v + 2 + 2 * epre.length + 3) _
     (by
       rw [Lemmas.WriterChunks.szEntries_toks epre, Lemmas.WriterChunks.szEntries_toks epost, Lemmas.WriterChunks.szVal_toks] at *
       simp only [List.length_cons, List.length_append, List.length_nil]; omega)
+    (by simp only [List.length_cons, List.length_append, List.length_nil]; omega)
     (allPacked_run o pre post _ seen2 H.wfRun hpost (allPacked_item o n _)) ?_
   intro hv rest1 s1 w1 f hw1 hf hfol hF1
   have hterm := blockFollow_term hfol
-  have := C12_null_key o hv pre post n btx epre epost v [] seen2 rest1 s1 f w1 [] [] true hw1 H.wfRun (nil_seen o) hname
-        hfresh hepre hepost hwv hpost (by simpa using hseen2) (by omega) (fun _ => hterm) hF1
-  simpa using this
-
+  obtain ⟨s2, r, h1, h2, h3, h4, _⟩ := C12_null_key_at o hv pre post n btx epre epost v [] seen2 rest1 s1 f w1 [] [] true hw1 H.wfRun
+    (nil_seen o) hname hfresh hepre hepost hwv hpost (by simpa using hseen2) (by omega) (fun _ => hterm) hF1
+  exact ⟨s2, r, by simpa using h1, h2, h3, h4⟩
 
 /-! ### the block-level classes -/
 
